@@ -104,8 +104,18 @@ func runC24(tb stat.TB, c c24Case) {
 		content[i] = byte(i%250) + 1
 	}
 	v.SeedFile("/f", 0644, 0, 0, content)
-	s := newSession(tb, v, absnfs.ExportOptions{Squash: c.InitSquash, MaxWorkers: 2})
+	// construction options carry pointers too: what New was given stays the caller's to edit afterwards
+	ctorTimeouts := drv.FastTimeouts(7 * time.Second)
+	ctorRL := absnfs.DefaultRateLimiterConfig()
+	s := newSession(tb, v, absnfs.ExportOptions{Squash: c.InitSquash, MaxWorkers: 2, Timeouts: ctorTimeouts, RateLimitConfig: &ctorRL})
 	defer s.close()
+	ctorDesc := c24Describe(s.e.NFS.GetExportOptions())
+	*ctorTimeouts = absnfs.TimeoutConfig{ReadTimeout: -5, WriteTimeout: -5, LookupTimeout: -5, ReaddirTimeout: -5, CreateTimeout: -5, RemoveTimeout: -5, RenameTimeout: -5, HandleTimeout: -5, DefaultTimeout: -5}
+	ctorRL = absnfs.RateLimiterConfig{GlobalRequestsPerSecond: -1}
+	if d := c24Describe(s.e.NFS.GetExportOptions()); d != ctorDesc {
+		stat.Violate(tb, id, check, "configuration-aliases-caller-struct", c, "editing the structs passed to New after it returned changed the configuration in force:\n before %s\n after  %s", ctorDesc, d)
+		return
+	}
 	nt := false
 	squash0 := s.e.NFS.GetExportOptions().Squash
 	abandoned := guard(func() {
@@ -149,6 +159,22 @@ func runC24(tb stat.TB, c c24Case) {
 					MaxWorkers: u.Workers, MaxConnections: c24Ints[u.MaxConn], IdleTimeout: c24Durs[u.Idle], SendBufferSize: c24Ints[u.SendBuf], ReceiveBufferSize: c24Ints[u.RecvBuf],
 					EnableRateLimiting: u.RateLimit, RateLimitConfig: rlc, Timeouts: u.timeouts()}
 				err = s.e.NFS.UpdateExportOptions(o)
+				// what the caller passed in is the caller's: editing it after the call returned changes nothing
+				afterCall := c24Describe(s.e.NFS.GetExportOptions())
+				if o.Timeouts != nil {
+					*o.Timeouts = absnfs.TimeoutConfig{ReadTimeout: -5, WriteTimeout: -5, LookupTimeout: -5, ReaddirTimeout: -5, CreateTimeout: -5, RemoveTimeout: -5, RenameTimeout: -5, HandleTimeout: -5, DefaultTimeout: -5}
+				}
+				if o.RateLimitConfig != nil {
+					*o.RateLimitConfig = absnfs.RateLimiterConfig{GlobalRequestsPerSecond: -1}
+				}
+				for k := range o.AllowedIPs {
+					o.AllowedIPs[k] = "203.0.113.9"
+				}
+				if d := c24Describe(s.e.NFS.GetExportOptions()); d != afterCall {
+					if stat.Violate(tb, id, check, "configuration-aliases-caller-struct", c, "%s: editing the structs passed to UpdateExportOptions after it returned changed the configuration in force:\n before %s\n after  %s", what, afterCall, d) {
+						return
+					}
+				}
 			case "getmodify":
 				o := s.e.NFS.GetExportOptions()
 				// edit what the returned value points to, in place
